@@ -1,0 +1,10 @@
+//go:build !verif
+
+package filecache
+
+import "io"
+
+// Verification hooks (see verif_on.go). Without the verif build tag they are empty and inlined away.
+
+func verifPoint(string)                 {}
+func verifReader(r io.Reader) io.Reader { return r }
